@@ -1,10 +1,225 @@
 import VOPyVerif.Drv.Proto
-/-! Driver front end for property C15 (line protocol → executable model). -/
+import VOPyVerif.Model.GPWrap
+/-! Driver front end for property C15 (GP wrappers: state machine + exact posterior).
+
+Samples are numbered `0 … S-1`; sample `s` has input point `pts[s]` (an index into the exported
+Gram tables), value row `Y[s]` (multi-output wrappers: `m` entries; model list: one entry) and, for
+the model list, objective `obj[s]`.
+
+Histories (`<ops>`, `;`-separated nat lists):
+`0,s…` add the batch of samples `s…` (model list: `dim_index = [obj[s] …]`, a list) ·
+`4,j,s…` model list only: add with the *integer* `dim_index = j` · `1` clear · `2` update ·
+`3,p…` predict at test points `p…` (point ids).
+
+* `post <K> <noise> <kstarT> <kss> <y> <m0> <m0s>` → `<mean>|<cov>|<minpivot or _>` or `X`:
+  `GPWrap.posterior` (for `n = 0` the `t` empty rows of `kstarT` are implied)
+* `hist <kind> <m> <noise> <consts> <tables> <pts> <Y> <obj> <ops>` with kind `indep`/`indepj`
+  (always joint) /`corr`/`mlist` → one answer per predict op, joined by `#`: `U` (no gpytorch model
+  yet), `X` (no posterior), or `<means T×m>|<cov m×m>|…(T of them)…|<min pivot or _>`:
+  `GPWrap.run` then `GPWrap.predict` with the class's exact posterior of `conditioned`
+* `state <kind:mo|mlist> <m> <obj> <ops>` → `<held>|<conditioned>|<init 0/1>|<upToDate 0/1>`
+  (sample ids; model list: one row per objective)
+* `helperops mo <fixed 0/1> <train batches> <hasinit 0/1> <init ids>` and
+  `helperops mlist <m> <obj> <fixed 0/1> <train batches j,s…> <hasinit 0/1> <init ids>` → the op
+  sequence `GPWrap.helperOps` / `helperOpsFixed` in the `<ops>` encoding
+In `hist`, a correlated model conditioned on no data answers `E` (the property exempts it).
+-/
 namespace VOPy.Drv.C15
-open VOPy VOPy.Proto
+open VOPy VOPy.Proto VOPy.GPWrap
+
+def fmtOptRat : Option Rat → String
+  | some r => fmtRat r
+  | none => "_"
+
+def fmtPost (q : Post) : String := fmtVec q.mean ++ "|" ++ fmtMat q.cov ++ "|" ++ fmtOptRat q.minPivot
+
+def minOpt (a b : Option Rat) : Option Rat :=
+  match a, b with
+  | none, x => x
+  | some a, none => some a
+  | some a, some b => some (if b < a then b else a)
+
+def fmtPosts (qs : List Post) : String :=
+  fmtMat (qs.map (·.mean)) ++ "|" ++ "|".intercalate (qs.map (fun q => fmtMat q.cov)) ++ "|" ++
+    fmtOptRat (qs.foldl (fun acc q => minOpt acc q.minPivot) none)
+
+/-- history op over sample ids; `none` = malformed -/
+inductive HOp where
+  | op (o : Op (List Nat))                 -- multi-output
+  | mop (o : Op (Route × List Nat))        -- model list
+  | pred (ps : List Nat)
+
+def decodeMO : List Nat → Option HOp
+  | 0 :: ss => some (.op (.add ss))
+  | [1] => some (.op .clear)
+  | [2] => some (.op .update)
+  | 3 :: ps => some (.pred ps)
+  | _ => none
+
+def decodeML (m : Nat) (obj : List Nat) : List Nat → Option HOp
+  | 0 :: ss => do
+      let idx ← ss.mapM (fun s => obj[s]?)
+      if idx.all (· < m) then some (.mop (.add (.each idx, ss))) else none
+  | 4 :: j :: ss => if j < m then some (.mop (.add (.single j, ss))) else none
+  | [1] => some (.mop .clear)
+  | [2] => some (.mop .update)
+  | 3 :: ps => some (.pred ps)
+  | _ => none
+
+def encodeOps (ops : List (Op (List Nat))) : String :=
+  fmtList ";" fmtNats (ops.map (fun o =>
+    match o with
+    | .add b => 0 :: b
+    | .clear => [1]
+    | .update => [2]))
+
+def encodeOpsML (ops : List (Op (Route × List Nat))) : String :=
+  fmtList ";" fmtNats (ops.map (fun o =>
+    match o with
+    | .add (.single j, b) => 4 :: j :: b
+    | .add (.each _, b) => 0 :: b
+    | .clear => [1]
+    | .update => [2]))
+
+/-- run a multi-output history; answers of the predict ops in order -/
+def histMO (exemptEmpty : Bool) (post : List (Nat × Vec) → Nat → Option Post) (pts : List Nat)
+    (Y : Mat) (ops : List HOp) : Option (List String) :=
+  let S := moStore Nat
+  let rec go (s : State (List Nat)) (ops : List HOp) (acc : List String) : Option (List String) :=
+    match ops with
+    | [] => some acc.reverse
+    | .op o :: rest => go (step S s o) rest acc
+    | .mop _ :: _ => none
+    | .pred ps :: rest =>
+      let ans : Option String :=
+        match predict (fun ids => ids.mapM (fun i =>
+            match pts[i]?, Y[i]? with
+            | some p, some y => some (p, y)
+            | _, _ => none)) s with
+        | none => some "U"
+        | some none => none
+        | some (some data) =>
+          if exemptEmpty && data.isEmpty then some "E"
+          else match predictAt post data ps with
+          | some qs => some (fmtPosts qs)
+          | none => some "X"
+      match ans with
+      | some a => go s rest (a :: acc)
+      | none => none
+  go (init S) ops []
+
+def histML (m : Nat) (post : List (List (Nat × Rat)) → Nat → Option Post) (pts : List Nat) (Y : Vec)
+    (ops : List HOp) : Option (List String) :=
+  let S := mlStore Nat m
+  let rec go (s : State (List (List Nat))) (ops : List HOp) (acc : List String) :
+      Option (List String) :=
+    match ops with
+    | [] => some acc.reverse
+    | .mop o :: rest => go (step S s o) rest acc
+    | .op _ :: _ => none
+    | .pred ps :: rest =>
+      let ans : Option String :=
+        match predict (fun d => d.mapM (fun ids => ids.mapM (fun i =>
+            match pts[i]?, Y[i]? with
+            | some p, some y => some (p, y)
+            | _, _ => none))) s with
+        | none => some "U"
+        | some none => none
+        | some (some data) =>
+          match predictAt post data ps with
+          | some qs => some (fmtPosts qs)
+          | none => some "X"
+      match ans with
+      | some a => go s rest (a :: acc)
+      | none => none
+  go (init S) ops []
+
+def fmtAns (l : List String) : String := if l.isEmpty then "_" else "#".intercalate l
 
 def handle (args : List String) : String :=
   match args with
+  | ["post", k, nz, kt, kss, y, m0, m0s] =>
+    match parseMat k, parseMat nz, parseMat kt, parseMat kss, parseVec y, parseVec m0, parseVec m0s with
+    | some K, some N, some KT, some KSS, some Y, some M0, some M0S =>
+      let KT := if Y.isEmpty && KT.isEmpty then M0S.map (fun _ => []) else KT
+      match posterior K N KT KSS Y M0 M0S with
+      | some q => fmtPost q
+      | none => "X"
+    | _, _, _, _, _, _, _ => bad
+  | ["hist", kind, m, nz, cs, tb, pts, y, obj, ops] =>
+    match m.toNat?, parseMat nz, parseVec cs, parseMats tb, parseNats pts, parseNats obj, parseNatss ops with
+    | some m, some N, some C, some T, some P, some O, some ops =>
+      let cfg : Cfg := { m := m, noise := N, consts := C, tables := T }
+      if kind = "mlist" then
+        match parseVec y, ops.mapM (decodeML m O) with
+        | some Y, some hops =>
+          if Y.length = P.length && O.length = P.length then
+            match histML m (mlistPost cfg) P Y hops with
+            | some l => fmtAns l
+            | none => bad
+          else bad
+        | _, _ => bad
+      else
+        match parseMat y, ops.mapM decodeMO with
+        | some Y, some hops =>
+          if Y.length = P.length then
+            let post? : Option (List (Nat × Vec) → Nat → Option Post) :=
+              if kind = "indep" then some (indepPost cfg)
+              else if kind = "indepj" then some (indepJoint cfg)
+              else if kind = "corr" then some (corrPost cfg)
+              else none
+            match post? with
+            | some post =>
+              match histMO (kind = "corr") post P Y hops with
+              | some l => fmtAns l
+              | none => bad
+            | none => bad
+          else bad
+        | _, _ => bad
+    | _, _, _, _, _, _, _ => bad
+  | ["state", kind, m, obj, ops] =>
+    match m.toNat?, parseNats obj, parseNatss ops with
+    | some m, some O, some ops =>
+      if kind = "mo" then
+        match ops.mapM decodeMO with
+        | some hops =>
+          let S := moStore Nat
+          let s := hops.foldl (fun s h => match h with | .op o => step S s o | _ => s) (init S)
+          fmtNats s.held ++ "|" ++ fmtNats s.conditioned ++ "|" ++ fmtBool s.initialised ++ "|" ++
+            fmtBool (upToDate s)
+        | none => bad
+      else if kind = "mlist" then
+        match ops.mapM (decodeML m O) with
+        | some hops =>
+          let S := mlStore Nat m
+          let s := hops.foldl (fun s h => match h with | .mop o => step S s o | _ => s) (init S)
+          fmtList ";" fmtNats s.held ++ "|" ++ fmtList ";" fmtNats s.conditioned ++ "|" ++
+            fmtBool s.initialised ++ "|" ++ fmtBool (upToDate s)
+        | none => bad
+      else bad
+    | _, _, _ => bad
+  | ["helperops", "mo", fixed, tr, hasinit, ini] =>
+    match parseBool fixed, parseNatss tr, parseBool hasinit, parseNats ini with
+    | some f, some T, some h, some I =>
+      let i : Option (List Nat) := if h then some I else none
+      encodeOps (if f then helperOpsFixed T i else helperOps T i)
+    | _, _, _, _ => bad
+  | ["helperops", "mlist", m, obj, fixed, tr, hasinit, ini] =>
+    match m.toNat?, parseNats obj, parseBool fixed, parseNatss tr, parseBool hasinit, parseNats ini with
+    | some m, some O, some f, some T, some h, some I =>
+      let tr? : Option (List (Route × List Nat)) := T.mapM (fun b =>
+        match b with
+        | j :: ss => if j < m then some (Route.single j, ss) else none
+        | [] => none)
+      let idx? : Option (List Nat) := I.mapM (fun s => O[s]?)
+      match tr?, idx? with
+      | some tr, some idx =>
+        if idx.all (· < m) then
+          let i : Option (Route × List Nat) := if h then some (Route.each idx, I) else none
+          encodeOpsML (if f then helperOpsFixed tr i else helperOps tr i)
+        else bad
+      | _, _ => bad
+    | _, _, _, _, _, _ => bad
   | _ => bad
 
 end VOPy.Drv.C15
